@@ -452,6 +452,59 @@ pub fn preludes(th: &Theory, b: &Bounds) -> Vec<Vec<Op>> {
     out
 }
 
+/// A wider start state for theories without model declarations: four interchangeable elements per type. From it only
+/// histories that use the elements in canonical order are explored (symmetry reduction, see `symmetry_filter`), which
+/// makes room for scenarios that need three or four elements within the same transition budget.
+pub fn wide_prelude(th: &Theory, b: &Bounds) -> Option<Vec<Op>> {
+    if th.types.iter().any(|t| matches!(t.kind, TypeKind::Model | TypeKind::Mor) || t.member_of.is_some()) { return None; }
+    let n = th.meta.get("wide_prelude").and_then(|x| x.as_u64()).unwrap_or(4) as usize;
+    if n <= b.prelude_elems || n == 0 { return None; }
+    let mut p = Vec::new();
+    for (ti, t) in th.types.iter().enumerate() {
+        if t.kind == TypeKind::Enum { continue; }
+        for _ in 0..n { p.push(Op::New(ti)); }
+    }
+    if p.is_empty() { None } else { Some(p) }
+}
+
+/// Symmetry reduction for a start state whose first `prelude_len` handles are anonymous elements created by `new_`
+/// and not yet distinguished by any fact: renaming such elements maps histories to histories with isomorphic
+/// behaviour, so it suffices to explore those in which, per type, the not-yet-used elements enter in handle order.
+/// (Behaviour that depends on the numeric ids themselves is not symmetric; the ordinary start states explore all
+/// histories over two elements for that.)
+pub fn symmetry_filter(th: &Theory, run: &Run, prelude_len: usize, ops: &mut Vec<Op>) {
+    let mut used = vec![false; run.handles.len()];
+    for h in prelude_len..run.handles.len() { used[h] = true; }
+    for a in &run.assertions {
+        match a {
+            Assertion::Insert { args, .. } | Assertion::Define { args, .. } => for &h in args { used[h] = true; },
+            Assertion::Equate { a, b, .. } => { used[*a] = true; used[*b] = true; }
+            Assertion::New { .. } => {}
+        }
+    }
+    let canonical = |args: &[usize], introduce: bool| -> bool {
+        let mut used = used.clone();
+        for &h in args {
+            if used[h] { continue; }
+            // h must be the smallest unused handle of its type
+            let ty = run.handles[h].0;
+            if (0..h).any(|g| !used[g] && run.handles[g].0 == ty) { return false; }
+            if introduce { used[h] = true; } else { return false; }
+        }
+        true
+    };
+    let _ = th;
+    ops.retain(|op| match op {
+        Op::Insert(_, a) | Op::Define(_, a) | Op::NewEnum(_, _, a) => canonical(a, true),
+        Op::Equate(_, a, b) => canonical(&[*a, *b], true),
+        // conditions only mention elements that already occur in some fact
+        Op::CloseUntil(Cond::Holds(_, a)) | Op::CloseUntil(Cond::Defined(_, a)) => canonical(a, false),
+        Op::CloseUntil(Cond::Equal(_, a, b)) => canonical(&[*a, *b], false),
+        Op::New(_) | Op::NewIn(..) => false,
+        _ => true,
+    });
+}
+
 // ------------------------------------------------------------------------------------------------
 // Search
 // ------------------------------------------------------------------------------------------------
@@ -474,9 +527,13 @@ pub struct TheoryResult {
     pub transcripts: Vec<(u64, u64, String)>,
 }
 
-struct Node { history: Vec<Op>, explored_from: usize, transcript: u64 }
+/// `closed`: the state's close()-successor was already computed when the state was discovered
+/// `sym`: the start state's elements are interchangeable; only histories that use them in canonical order are explored
+struct Node { history: Vec<Op>, explored_from: usize, transcript: u64, closed: bool, sym: bool }
 
 struct SuccOut {
+    /// operation applied to the node before `op` (close-on-discovery: `op` is then the Close applied to the successor)
+    pre: Option<Op>,
     op: Op,
     key: (u64, u64),
     transcript: u64,
@@ -504,13 +561,15 @@ pub fn explore_theory(th: &Theory, make: fn() -> Box<dyn DynModel>, b: &Bounds, 
     let mut frontier: Vec<Node> = Vec::new();
     let mut viol_sigs: HashSet<String> = HashSet::new();
     let mut groups: HashMap<String, (ClosedInfo, Vec<Op>, u64)> = HashMap::new();
-    for p in preludes(th, b) {
+    let mut start_list: Vec<(Vec<Op>, bool)> = preludes(th, b).into_iter().map(|p| (p, false)).collect();
+    if let Some(w) = wide_prelude(th, b) { if !start_list.iter().any(|(p, _)| *p == w) { start_list.push((w, true)); } }
+    for (p, sym) in start_list {
         match replay_history(th, make, &p, oracles) {
             Ok((run, _)) => {
                 if seen.insert(run.key()) {
                     let mut h = std::collections::hash_map::DefaultHasher::new();
                     run.transcript.clone().finish().hash(&mut h);
-                    frontier.push(Node { explored_from: p.len(), history: p, transcript: run.transcript.clone().finish() });
+                    frontier.push(Node { explored_from: p.len(), history: p, transcript: run.transcript.clone().finish(), closed: false, sym });
                 }
             }
             Err(e) => { res.violations.push(Violation { sig: format!("{}:prelude", th.name), summary: e.clone(), replay: json!({"theory": th.name, "history": history_json(th, &p), "message": e}) }); }
@@ -537,6 +596,7 @@ pub fn explore_theory(th: &Theory, make: fn() -> Box<dyn DynModel>, b: &Bounds, 
         let mut chunk_start = 0usize;
         while chunk_start < frontier.len() && !res.capped {
         let chunk_end = (chunk_start + chunk_size).min(frontier.len());
+        let seen_ro = &seen;
         let expanded: Vec<(usize, Result<Vec<SuccOut>, String>)> = frontier[chunk_start..chunk_end].par_iter().enumerate().map(|(ci, node)| {
             let ni = chunk_start + ci;
             // rebuild the state by replay; the transcript of the prefix must be what it was (determinism)
@@ -548,6 +608,9 @@ pub fn explore_theory(th: &Theory, make: fn() -> Box<dyn DynModel>, b: &Bounds, 
                 return (ni, Err("NONDETERMINISM: replaying an explored history gave a different transcript".to_string()));
             }
             let mut ops = menu(th, &base, b, &node.history[node.explored_from..]);
+            if node.sym { symmetry_filter(th, &base, node.explored_from, &mut ops); }
+            if node.closed { ops.retain(|o| !matches!(o, Op::Close)); }
+            let closes_so_far = node.history[node.explored_from..].iter().filter(|o| matches!(o, Op::Close | Op::CloseUntil(_))).count();
             if th.types.iter().any(|t| t.kind == TypeKind::Model) {
                 // the property quantifies over acyclic morphism graphs (cycles are rejected by design):
                 // keep only operations after which the free model's morphism graph is acyclic
@@ -583,7 +646,30 @@ pub fn explore_theory(th: &Theory, make: fn() -> Box<dyn DynModel>, b: &Bounds, 
                         closed = Some(ClosedInfo { named, canon, structure: s });
                     }
                 }
-                outs.push(SuccOut { op: op.clone(), key: run.key(), transcript: run.transcript.clone().finish(), step, error: r.err(), closed, nontrivial });
+                let ok = r.is_ok();
+                let key = run.key();
+                outs.push(SuccOut { pre: None, op: op.clone(), key, transcript: run.transcript.clone().finish(), step, error: r.err(), closed, nontrivial });
+                // close-on-discovery: every state that is new (as far as known when this chunk started) is closed right
+                // away, so that the closed-state oracles see every explored state and not only those that are expanded
+                // again before a budget or the depth bound ends the search
+                let is_closing = matches!(op, Op::Close | Op::CloseUntil(_));
+                if ok && !is_closing && closes_so_far < b.max_closes && !seen_ro.contains(&key) {
+                    let mut step2 = StepOut::default();
+                    let r2 = run.step(&Op::Close, oracles, &mut step2);
+                    let mut closed2 = None;
+                    let mut nontrivial2 = false;
+                    if r2.is_ok() {
+                        let s = dump_structure(th, &*run.model);
+                        nontrivial2 = some_rule_matches(th, &s);
+                        if oracles.c03 && !step2.violations.iter().any(|v| v.0.starts_with("not-closed")) {
+                            let (canon, names) = canonical_assertions(th, &run.assertions);
+                            let roots = run.handle_roots();
+                            let named = names.into_iter().enumerate().map(|(h, n)| (n, run.handles[h].0, roots[h])).collect();
+                            closed2 = Some(ClosedInfo { named, canon, structure: s });
+                        }
+                    }
+                    outs.push(SuccOut { pre: Some(op.clone()), op: Op::Close, key: run.key(), transcript: run.transcript.clone().finish(), step: step2, error: r2.err(), closed: closed2, nontrivial: nontrivial2 });
+                }
             }
             (ni, Ok(outs))
         }).collect();
@@ -600,12 +686,16 @@ pub fn explore_theory(th: &Theory, make: fn() -> Box<dyn DynModel>, b: &Bounds, 
                     continue;
                 }
             };
+            let mut last_plain_idx: Option<usize> = None;
             for o in outs {
                 let op = &o.op;
                 res.transitions += 1;
+                // a close-on-discovery entry follows the successor it closes: that state need not be closed again
+                if o.pre.is_some() { if let Some(i) = last_plain_idx.take() { next[i].closed = true; } } else { last_plain_idx = None; }
                 res.inconclusive += o.step.inconclusive as u64;
                 res.max_close_iterations = res.max_close_iterations.max(o.step.close_iterations);
                 let mut hist = node.history.clone();
+                if let Some(p) = &o.pre { hist.push(p.clone()); }
                 hist.push(op.clone());
                 let mut record = |sig: String, msg: String, res: &mut TheoryResult| {
                     if viol_sigs.insert(sig.clone()) && res.violations.len() < 60 {
@@ -652,7 +742,8 @@ pub fn explore_theory(th: &Theory, make: fn() -> Box<dyn DynModel>, b: &Bounds, 
                 if seen.insert(o.key) {
                     if res.samples.len() < 3 && hist.len() >= node.explored_from + 3 && matches!(op, Op::Close) { res.samples.push(history_json(th, &hist)["text"].clone()); }
                     if oracles.collect_transcripts { res.transcripts.push((hash_history(&hist), o.transcript, hist.iter().map(|x| x.show(th)).collect::<Vec<_>>().join("; "))); }
-                    next.push(Node { history: hist, explored_from: node.explored_from, transcript: o.transcript });
+                    next.push(Node { history: hist, explored_from: node.explored_from, transcript: o.transcript, closed: false, sym: node.sym });
+                    if o.pre.is_none() && !matches!(op, Op::Close | Op::CloseUntil(_)) { last_plain_idx = Some(next.len() - 1); }
                 }
             }
             if seen.len() > b.state_cap || res.transitions as usize > budget_end { res.capped = true; res.cap_hit = "transition/state budget"; break; }
